@@ -8,7 +8,8 @@ import os
 import re
 
 from harness.common import facts as F
-from harness.c10 import factsx
+from harness.c10 import factsx, translate
+from harness.common import build as _build
 
 ID = 'C10'
 HERE = os.path.dirname(os.path.abspath(__file__))
@@ -33,25 +34,36 @@ ASSUMPTIONS = [
     'all calls made inside one operation see the same clock value',
 ]
 TRUSTED = [
-    'hand-written model coq/Model/C10.v of manage_accessed, manage_changed, CookieSession.__init__/changed/invalidate/flash/'
-    'pop_flash/peek_flash/new_csrf_token/get_csrf_token/_set_cookie (shape-pinned) and of dict get/set/pop/... on '
-    'insertion-ordered association lists (validated by correspondence)',
+    'translator harness/c10/translate.py: its PRIMITIVE TABLE (which Python leaf expression / call / idiom of session.py maps '
+    'to which primitive of coq/Model/C10_base.v) -- control flow (sequencing, if/elif/else, and/or/not, `is None` matches, '
+    'try/except with partially executed bodies, early return, raise, chained assignment, stores on the session) is '
+    'translated mechanically and proved equal to the reference model on every run',
+    'coq/Model/C10_base.v primitives: dict get/set/pop/... on insertion-ordered association lists, Python == on JSON '
+    'values, unpack3, float_of, loads (SignedSerializer), signed_dumps, append_at / py_in (aliased flash list), '
+    'register_cb = identity (the callback registration is represented by the dirty flag) -- validated by correspondence',
+    'the class-body facts (which wrapper each method name is bound to; configuration attributes pinned literally) and the '
+    'pin of SignedCookieSessionFactory',
     'WebOb SignedSerializer/JSONSerializer, hmac, hashlib, json, base64: abstract in the proofs; in the correspondence run '
     'json.dumps and urlsafe_b64encode are concrete Gallina functions (validated: the cookie text must match exactly), '
     'hmac / b64decode / json.loads answers are computed by the real libraries and shipped as tables',
 ]
-TECHNIQUE = ('Coq proof (induction over operation lists and request chains) on a hand-written Gallina model whose wrapper '
-             'table and constants are regenerated from the class body + extracted-model differential correspondence')
-LEVEL_TEXT = ('Machine-checked theorems (16, closed under the global context) for every mac/ser/deser/b64 satisfying the stated '
-              'round-trip premises (shown satisfiable), every option set, clock, operation list and request chain: the model of '
-              'CookieSession refines the declarative store semantics over whole histories (persistence incl. flash queues and CSRF '
-              'token, cookie set iff modified or accessed past reissue_time and not suppressed by an exception, creation time '
-              'preserved, timeout kept at = / emptied at +1, new empty session without exception for every byte string that is '
-              'not mac key p ++ p, refusal above 4064 without truncation); every state-changing method is wrapped by '
-              'manage_changed in the regenerated class table.  Tied to the code by shape pins, regenerated table/constants and a '
-              'differential run of the extracted model (exact cookie text) against SignedCookieSessionFactory and a real Router.')
-LEVEL_NOTE = ('Trusted: Coq kernel; hand-written model (shape-pinned, validated by correspondence); Python harness; WebOb/hmac/'
-              'json/base64 as abstract functions with explicit premises (no section hypothesis survives; Print Assumptions closed).')
+TECHNIQUE = ('Coq proof (induction over operation lists and request chains) about a Gallina program whose control flow is '
+             'translated from src/pyramid/session.py on every run (harness/c10/translate.py), proved equal to a hand-written '
+             'reference model; wrapper table regenerated from the class body; extracted-program differential correspondence')
+LEVEL_TEXT = ('Machine-checked theorems (38, closed under the global context).  The program regenerated from session.py on this '
+              'run (manage_accessed/manage_changed, changed, invalidate, flash, pop_flash, peek_flash, new_csrf_token, '
+              'get_csrf_token, __init__, _set_cookie; wrappers chosen by the regenerated class table) equals the reference '
+              'model for all inputs, and the property holds of it literally: over whole request histories it refines the '
+              'declarative store semantics (persistence incl. flash queues and CSRF token, cookie set iff modified or accessed '
+              'past reissue_time and not suppressed by an exception, creation time preserved, timeout kept at = / emptied one '
+              'tick later, new empty session without exception for every byte string that is not mac key p ++ p, refusal above '
+              '4064 without truncation), for every mac/ser/deser/b64 with the stated round trips -- in particular for the real '
+              'JSON + urlsafe base64 wire format, whose round trips are proved.  The extracted regenerated program is run '
+              'against SignedCookieSessionFactory and a real Router (exact cookie text).')
+LEVEL_NOTE = ('Trusted: Coq kernel; the translator\'s primitive table and the primitives of C10_base.v (validated by '
+              'correspondence); class-body facts; Python harness; hmac as an abstract function of fixed length. Anything outside '
+              'the translator\'s subset/table is a broken tie (fallback text emitted), never a silent success. Print Assumptions '
+              'closed, ALLOWED_AXIOMS empty.')
 
 # ------------------------------------------------------------------ facts
 def facts(src):
@@ -62,6 +74,11 @@ def facts(src):
                     'flash_prefix': vals['flash_prefix'], 'csrf_key': vals['csrf_key'],
                     'payload_fields': vals['payload_fields']})
     _F.update(vals)
+    # the control flow of the session code, regenerated from the source (harness/c10/translate.py)
+    gen, tproblems, tsummary = translate.translate_tree(src, vals.get('urandom_n', 20))
+    problems += tproblems
+    summary.update(tsummary)
+    _build.write_if_changed(os.path.join(_build.COQ, 'Gen', 'Prog_C10.v'), gen)
     return {'coq': factsx.emit(vals), 'summary': summary, 'problems': problems}
 
 
